@@ -75,3 +75,23 @@ Example C02_uuid_nonhex : uuid_ok (of_string "123e4567-e89b-12d3-a456-4266141740
 Proof. vm_compute. reflexivity. Qed.
 Example C02_uuid_bad_prefix : uuid_ok (of_string "urn:uuix:123e4567-e89b-12d3-a456-426614174000"%string) = false.
 Proof. vm_compute. reflexivity. Qed.
+
+(* ---------- string values: what minLength / maxLength / regex / enum / const see ----------
+   Every rule that looks at a string value looks at Unquote(token) (Text/Unquote.v).
+   Proofs live in Text/UnquoteProofs.v. *)
+From JS Require Text.Unquote Text.UnquoteProofs Json.Scanner Json.Grammar.
+
+(* the length the rules measure is the length of the decoded value (its UTF-8 bytes),
+   whatever escapes the token uses to spell it *)
+Theorem C02_length_is_decoded_length : forall rs sps body,
+  forallb Unquote.scalar rs = true -> Unquote.spell_all rs sps = Some body ->
+  List.length (Unquote.unquote (Unquote.quote body)) = List.length (Unquote.utf8 rs).
+Proof. exact UnquoteProofs.unquote_length. Qed.
+Print Assumptions C02_length_is_decoded_length.
+
+(* a token the JSON scanner accepts as a string never makes unquoteBytes fail *)
+Theorem C02_string_tokens_always_unquote : forall b,
+  Grammar.lex_string_body (b ++ [x22]) = Some [] ->
+  exists t, Unquote.unquote_bytes (Unquote.quote b) = Some t.
+Proof. exact UnquoteProofs.unquote_scanner_ok. Qed.
+Print Assumptions C02_string_tokens_always_unquote.
